@@ -147,6 +147,7 @@ type X struct {
 	nameCnt  map[string]int
 	opqNils  map[string]string
 	junkAuction Val
+	noAbbrev int
 	sorts    map[string]string
 	sums     map[string]*SumFn
 	depth    int
@@ -328,6 +329,9 @@ func (x *X) mk(s *State, prefix string, t types.Type, wrap wrapFn, inAgg bool) V
 		}
 		return x.newMap(s, prefix, u, true)
 	case *types.Pointer:
+		if namedOf(u.Elem()) == tyAny {
+			return x.auctionRecord(s, prefix, wrap) // *codectypes.Any: in this module always a packed AuctionI (union record, Kind 0 = nil)
+		}
 		if inAgg {
 			return Opq{"pointer inside aggregate"}
 		}
@@ -451,6 +455,9 @@ func (x *X) zero(s *State, t types.Type, wrap wrapFn) Val {
 	case *types.Map:
 		return MapV{0}
 	case *types.Pointer:
+		if namedOf(u.Elem()) == tyAny {
+			return x.zero(s, x.V.lookupType("AuctionI"), func(so string) string { return arrSort("Int", wrap(so)) }).(St).selAll("0")
+		}
 		return Ptr{0, nil}
 	case *types.Interface:
 		return Iface{Kind: "", V: nil}
@@ -530,7 +537,8 @@ func (x *X) flat(s *State, v Val) Val {
 		// object are not reflected in the stored copy; the module never reads an element again after mutating the object)
 		if y.Kind != "" {
 			if p, ok := y.V.(Ptr); ok && p.Obj != 0 {
-				like := x.auctionRecord(s, "like", idWrap)
+				scratch := &State{} // the shape donor's length facts are not assumptions of the path
+				like := x.auctionRecord(scratch, "like", idWrap)
 				rec := x.auctionToRecord(s, y, like)
 				rec.F["Kind"] = Sc{T: y.Kind, Sort: "Int"}
 				return rec
@@ -1823,6 +1831,10 @@ func (x *X) verify() (res *VerifyResult) {
 
 func (x *X) checkEnsures(s *State, res []Val) {
 	fr := s.top()
+	for _, c := range x.ct.Sets {
+		// ghost assignment at the return: the named ghost variable takes the value of the expression
+		s.ghost[c.LetVar] = x.flat(s, x.newEv(s, evalCtx{results: res, post: true}).eval(c.Expr))
+	}
 	for k, c := range x.ct.Ensures {
 		if c.Assumed {
 			continue
@@ -1903,6 +1915,9 @@ const abbrevLimit = 96
 
 // abbrev replaces long scalar terms inside v by fresh constants defined equal to them.
 func (x *X) abbrev(s *State, v Val, hint string) Val {
+	if x.noAbbrev > 0 {
+		return v // inside a schema that generalises over a generic position: definitions would capture it
+	}
 	switch y := v.(type) {
 	case Sc:
 		if len(y.T) <= abbrevLimit {
